@@ -218,27 +218,9 @@ where
     Other: AsRef<[u8]>,
 {
     fn partial_cmp(&self, other: &Nsec3<Other>) -> Option<Ordering> {
-        match self.hash_algorithm.partial_cmp(&other.hash_algorithm) {
-            Some(Ordering::Equal) => {}
-            other => return other,
-        }
-        match self.flags.partial_cmp(&other.flags) {
-            Some(Ordering::Equal) => {}
-            other => return other,
-        }
-        match self.iterations.partial_cmp(&other.iterations) {
-            Some(Ordering::Equal) => {}
-            other => return other,
-        }
-        match self.salt.partial_cmp(&other.salt) {
-            Some(Ordering::Equal) => {}
-            other => return other,
-        }
-        match self.next_owner.partial_cmp(&other.next_owner) {
-            Some(Ordering::Equal) => {}
-            other => return other,
-        }
-        self.types.partial_cmp(&other.types)
+        // Must agree with `Ord`, which is the canonical order (salt and
+        // next owner hash sort by length first).
+        Some(self.canonical_cmp(other))
     }
 }
 
